@@ -2339,9 +2339,7 @@ func listContrib(f *ssa.Function, depth int, busy map[*ssa.Function]bool) map[st
 	// function of its own; each append in it (outside loops of its own) contributes, per invocation, whatever the
 	// iterator yields - and the iterator's yield sites are classified like append sites
 	for _, y := range f.AnonFuncs {
-		if y.Synthetic != "range-over-func yield" {
-			continue
-		}
+		// ... the same holds for an explicit visitor: `r.eachJournal(func(j *ast.Journal) { result = append(...) })`
 		var iters []*ssa.Function
 		for _, b := range f.Blocks {
 			for _, ins := range b.Instrs {
